@@ -189,6 +189,13 @@ Theorem C08_wrapper_context_independent : forall pol now cx h c,
 Proof. exact wrapper_context_independent. Qed.
 Print Assumptions C08_wrapper_context_independent.
 
+(** breakers created from one policy object (one per CreateWrapper call / server pool) are
+    independent: instance [k] in a joint run behaves as when run alone on its own calls *)
+Theorem C08_instances_independent : forall pol k idx calls f,
+  pick k idx (wrapm_run pol f idx calls) = wrap_run pol (f k) (pick k idx calls).
+Proof. exact instances_independent. Qed.
+Print Assumptions C08_instances_independent.
+
 (** a short-circuited call is answered 503 / shortCircuited and runs no handler (contacts no server) *)
 Theorem C08_short_circuit_is_503 : forall pol now h c b,
   fst (cb_acquire pol now c) = false ->
